@@ -64,7 +64,13 @@ def build_session(rng, tmp, kind, metric, thorough, lattice=None):
     extra = {"sup": (), "semi": (Xu,), "knn": (Xv, Yv), "unsup": ()}[kind]
     ep = 1
     s.fit(o, ep, X, Y, extra)
-    allq = np.vstack([Q, X])                      # queries + the training samples themselves
+    s.observe(o, ep, "predstate")                 # everything a prediction reads (no relevance marks), as fit left it
+    # queries + the training samples themselves + far outliers (a sample far outside the training data exercises the ends of every
+    # range a model keeps - whatever predicting it does, the others' labels may not move)
+    far = X.mean(0) + (np.array([[60.0, 45.0], [-35.0, 80.0]]) if X.shape[1] == 2 else 50.0)
+    if np.all(X >= 0):
+        far = np.abs(far) + 0.25
+    allq = np.vstack([Q, X, far])
     m = len(allq)
     for rnd in range(rng.randrange(6, 14 if thorough else 9)):
         c = rng.random()
@@ -79,12 +85,15 @@ def build_session(rng, tmp, kind, metric, thorough, lattice=None):
         else:
             idx = rng.sample(range(m), rng.randrange(2, m))
         s.predict(o, ep, allq[idx].copy())
+        s.observe(o, ep, "predstate")             # ... and as every predict call leaves it: within an epoch it may not move
         if kind == "unsup" and rng.random() < 0.15:
             s.call("propagate_labels", s.objs[o]["m"].propagate_labels)
             ep += 1                               # labels change by contract: new epoch
+            s.observe(o, ep, "predstate")
         if rng.random() < 0.1:
             s.fit(o, ep + 1, X, Y, extra)
             ep += 1
+            s.observe(o, ep, "predstate")
     return s
 
 
@@ -146,10 +155,15 @@ def run(tier, seed):
     rep.sample({"kind": sessions[2][1], "events": [{k: v for k, v in e.items() if k != "arr"} for e in sessions[2][0].ev[:6]]})
     rep.count("predictions_judged", sum(1 for s, _ in sessions for e in s.ev if e["op"] == "pred"))
     for s, meta, l, e, clause in rej:
+        if clause[0] == "twin_state_differs" and clause[1] == "predstate":
+            # a predict call changed something later predictions read (costs, labels, ordered list, density range, k ...): then
+            # some sample's label depends on what was predicted before it, whether or not this session happened to contain one
+            rep.violation("predict", "predict_changed_the_fitted_state_that_predictions_read", meta["kind"], {"event_index": l, "event": {k: v for k, v in e.items() if k != "arr"}, "session": meta, "seed": rep.seed, "tier": tier})
+            continue
         if clause[0] not in CLAUSES:
             continue
         rep.violation("predict", clause[0], meta["kind"], {"event_index": l, "event": {k: v for k, v in e.items() if k != "arr"}, "session": meta, "seed": rep.seed, "tier": tier})
-    rep.cov["rule"] = "per fitted model: the same pool of samples (incl. copies of training samples and the training samples themselves) predicted alone, in full/reversed/sub-sampled/duplicated batches and after unrelated predict calls; propagate_labels and refits start a new epoch; four model kinds, 8 metrics"
+    rep.cov["rule"] = "per fitted model: the same pool of samples (incl. copies of training samples and the training samples themselves) predicted alone, in full/reversed/sub-sampled/duplicated batches and after unrelated predict calls; propagate_labels and refits start a new epoch; the state predictions read (everything but relevance marks) is observed after fit and after every predict call and may not move within an epoch; far outliers among the queries; four model kinds, 11 metrics"
     rep.assumptions = ["TLC", "sample identity = content id of its feature row"]
     return rep.finish()
 
